@@ -92,6 +92,8 @@ add("C47", EX, "CSV half only (parquet needs the real pyarrow library, absent he
     "bounded exhaustive differential enumeration against pandas (all blocksizes, all partitionings)")
 add("C52", MC, "(a) one Profiler active inside the exhaustive completion-order sweep (incl. every single failing task and a second get under the same profiler): exactly one entry per task that reached posttask, start <= end; (b) ALL histories of <= 2 (3) get calls under one Cache over 3 graph shapes x values from an alphabet with key-like strings, task-like tuples and lists of keys x every request subset, compared with the cache-free values.", "5/C52", SCHED_NOTE + " The absent cachey package is replaced by a 20-line stand-in (nbytes + dict-backed cache object); dask/cache.py runs unmodified.",
     "exhaustive interleaving exploration (profiler) + exhaustive enumeration of get histories (cache) on the real callbacks")
+add("C16", MC, "clone / bind / wait_on / checkpoint applied to arrays (blockwise and materialized layers), bags, delayed trees and dataframes built from recording task functions, for every kind pair x omit x seed x assume_layers x split_every x optimize_graph; each construction is computed through the real get_async under EVERY completion order with <= 1 (3) deviations from FIFO and the execution log is judged in each: values unchanged, clone keys disjoint, children strictly after parents, checkpoint after all inputs.", "5/C16", SCHED_NOTE + " uuid4 is made deterministic during a compute so that replayed schedule prefixes see the same optimized graph.",
+    "deviation-bounded exhaustive interleaving exploration of the real scheduler with execution-log oracle")
 
 
 def build():
